@@ -30,6 +30,11 @@ HoldsC18(cl, o) ==
          (WithDir(o) /\ o.in.place = "inside" /\ x.saved = "") =>
             /\ x.loaded = ""
             /\ \A j \in DOMAIN x.recs : x.recs[j].atB = Join(x.B, RelativeTo(x.recs[j].orig, x.A))
+            \* ... and the same when the files really exist under A, the process stands inside A and nothing exists under
+            \* the load directory (out.loadedfs = "skipped" when that load was not made)
+            /\ x.loadedfs # "skipped" =>
+                  /\ x.loadedfs = ""
+                  /\ \A j \in DOMAIN x.recs : x.recs[j].atBfs = Join(x.Bfs, RelativeTo(x.recs[j].orig, x.A))
     [] cl = "RelocatesEverywhere" ->        \* every place the recording is reachable from sees the same relocated path
          (x.saved = "" /\ x.loaded = "") => \A j \in DOMAIN x.recs : x.recs[j].count = 1
     [] cl = "PassThroughWithoutDir" ->
